@@ -48,6 +48,30 @@ def panic_class(msg):
     return re.sub(r"[^a-z]+", "-", m)[:40]
 
 
+GENERIC_PANICS = ("unwrap-none", "unreachable!", "todo!", "missing-map-key", "arithmetic-overflow")
+_FN_AT = {}
+
+
+def panic_fn(at):
+    """'<file relative to /repo>::<enclosing function>' of a panic location 'file:line' (line numbers never enter a key)"""
+    if not at or ":" not in at:
+        return "?"
+    path, line = at.rsplit(":", 1)
+    rel = os.path.relpath(path, core.REPO) if path.startswith(core.REPO) else path
+    if rel.startswith("..") or not line.isdigit():
+        return os.path.basename(path)
+    if rel not in _FN_AT:
+        t = stages.repo_syn(rel)
+        _FN_AT[rel] = sorted(((f.get("l") or 0, f.get("el") or 0, q) for q, f in synq.functions(t).items()),
+                             key=lambda x: (x[0], -x[1])) if t else []
+    best = None
+    for l, el, q in _FN_AT[rel]:
+        if l <= int(line) <= el:
+            best = q        # innermost enclosing function: later start wins
+    short = rel.replace("pdl-compiler/src/", "")
+    return f"{short}::{best or '?'}"
+
+
 def py_undefined_names(src):
     """names loaded in a module that no scope binds (flake-style, conservative)"""
     tree = pyast.parse(src)
@@ -105,8 +129,12 @@ def run(rep, tier, seed):
         for stage in ("parse", "analyze", "json", "rust", "python", "cxx", "java"):
             v = st.get(stage)
             if isinstance(v, dict) and "panic" in v:
-                rep.add(bkey(g, name, stage, "panic", f"C10|{stage}|panic|{panic_class(v['panic'])}"),
-                        f"{stage} panicked on {name}: {v['panic'][:160]}",
+                cls = panic_class(v["panic"])
+                if cls in GENERIC_PANICS:
+                    # one message, many sites: the function the panic was raised in tells the root causes apart
+                    cls += "|" + panic_fn(v.get("at"))
+                rep.add(bkey(g, name, stage, "panic", f"C10|{stage}|panic|{cls}"),
+                        f"{stage} panicked on {name}: {v['panic'][:160]} (at {v.get('at')})",
                         f"{name}.pdl", {"description": g.text(name)[:600]})
         if grp in ("fixed", "generated") and isinstance(st.get("analyze"), dict) and "errors" in st["analyze"]:
             codes = [e.get("code") for e in st["analyze"]["errors"]]
